@@ -737,7 +737,7 @@ func (rw *responseChecker) EncodeToken(t xml.Token) error {
 	switch tok := t.(type) {
 	case xml.StartElement:
 		_, _, id, typ := getIDTyp(tok.Attr)
-		if rw.level < 1 && isIQEmptySpace(tok.Name) && id == rw.id && (typ != string(stanza.GetIQ) && typ != string(stanza.SetIQ)) {
+		if rw.level < 1 && isIQEmptySpace(tok.Name) && id == rw.id && (typ == string(stanza.ResultIQ) || typ == string(stanza.ErrorIQ)) {
 			rw.wroteResp = true
 		}
 		rw.level++
